@@ -66,6 +66,7 @@ def _parallel(cmd, lines, env, jobs):
 def run_model(lines, jobs=None):
     # 'NF ' asks the implementation runner to spell integer parameters as integral floats; the model
     # has one spelling
+    lines = [l[4:] if l.startswith('MSG ') else l for l in lines]
     lines = [l[3:] if l.startswith('NF ') else l for l in lines]
     return _parallel(['/bin/sh', '-c', 'ulimit -s unlimited 2>/dev/null; exec "%s"' % DRIVER],
                      lines, None, jobs or NPROC)
